@@ -16,6 +16,9 @@ Container == {"bare", "legacy", "zip"}
 Inner     == {"allowed", "sink", "dangerous", "mlonly", "sinkinst", "dotted", "cross"}   \* cross: the MODULE of one addition with the NAME of another (verif_sink / loads): the pair was never added   \* dotted: a protocol-4 qualified name whose FIRST component is allow-listed (collections / OrderedDict.fromkeys): the pair (module, name) is not   \* sinkinst: hand-assembled protocol-0 INST payload    \* mlonly: standard-library classes the static check rates LIKELY_SAFE
 Entry     == {"load", "loads", "cload", "cloads"}
 AddSet    == {"none", "loaders", "loaders+other"}
+\* what happened in the same activation before the probed load: nothing, or a load that named an allow-listed global of a
+\* package that is not installed (it fails with ImportError; the protection must survive a load that ends by exception)
+Prelude   == {"none", "failed_allowed"}
 Layer     == {"ml", "ml+context", "ml+armed"}      \* what else is installed on pickle.load on top of the active environment
 \* a wrapper accepts only some serialisations of the next level
 Fits(w, c) == IF w = "lfb" THEN c \in {"legacy", "zip"} ELSE c = "bare"
@@ -24,11 +27,12 @@ Via(w, c) == IF w = "lfb" THEN "unpickler_class" ELSE "hooked_function"
 AllowedWrapper(w, adds) == w = "lfb" \/ adds # "none"
 AllowedInner(g, adds) == g = "allowed"
 
-VARIABLES chain, inner, entry, adds, layer
-vars == <<chain, inner, entry, adds, layer>>
+VARIABLES chain, inner, entry, adds, layer, prelude
+vars == <<chain, inner, entry, adds, layer, prelude>>
 Init == /\ \E d \in 0..MaxDepth : chain \in [1..d -> Wrapper \X Container]
         /\ \A i \in DOMAIN chain : Fits(chain[i][1], chain[i][2])
         /\ inner \in Inner /\ entry \in Entry /\ adds \in AddSet
+        /\ prelude \in (IF Len(chain) <= 1 THEN Prelude ELSE {"none"})
         /\ layer \in (IF entry = "load" THEN Layer ELSE {"ml"})       \* the extra layers only sit on pickle.load
 Next == UNCHANGED vars
 Spec == Init /\ [][Next]_vars
@@ -43,6 +47,6 @@ FirstOutsider ==
 \* design prediction: the outsider at level i is blocked iff the unpickler of level i is mediated
 DesignBlocks == FirstOutsider = -1 \/ Mediated(FirstOutsider)
 MediatesAll == DesignBlocks
-Emit == PrintT(<<"CASE", ToJson([chain |-> chain, inner |-> inner, entry |-> entry, adds |-> adds, layer |-> layer,
+Emit == PrintT(<<"CASE", ToJson([chain |-> chain, inner |-> inner, entry |-> entry, adds |-> adds, layer |-> layer, prelude |-> prelude,
                                  outsider |-> FirstOutsider # -1])>>)
 =============================================================================
